@@ -504,3 +504,21 @@ PROPS["C03"]["assumptions"] += ["IndexSet behaves as a set (slot-array model: sw
                                 "order not modelled)"]
 PROPS["C03"]["trusted_base"] = KANI_TB + MIR_TB
 PROPS["C03"]["mir"] = True
+
+
+PROPS["C47"] = dict(
+    title="Host memory access from WASM is always bounds-checked",
+    functions=["radix_engine::vm::wasm::wasmi::{read_memory, write_memory} (private, generic over the wasmi store; MIR "
+               "executed directly, native replay through the verif_read_memory / verif_write_memory shims on a real "
+               "wasmi Memory)"],
+    bounds="every linear memory size of 0..=65536 pages of 64 KiB, every u32 pointer, every u32 length (read) / data "
+           "length below 2^33 (write); 64-bit usize",
+    outside="the host functions that call them (consume_buffer, read_slice, buffer bookkeeping in scrypto_runtime.rs), "
+            "the bytes themselves (slices carry only their length), 32-bit hosts (ptr + len is computed in usize), "
+            "wasmi's own implementation of Memory::data / Memory::write",
+    assumptions=["wasmi::Memory::data returns the whole linear memory (length = pages * 65536)",
+                 "wasmi::Memory::write returns Err exactly when offset + len exceeds the memory size and never panics",
+                 "indexing a slice with a range panics exactly when start > end or end > len"],
+    trusted_base=MIR_TB,
+    mir=True,
+)
